@@ -208,6 +208,9 @@ pub struct ItemSpec {
     /// constant added by the upgrade code (`{value} / up + offset`): a declared code is applied as it stands, to 0 as well
     #[serde(default)]
     pub offset: u8,
+    /// the downgrade code mentions the placeholder twice: `({value} + {value}) * d / 2` (= `{value} * d`)
+    #[serde(default)]
+    pub twice: bool,
 }
 
 fn alias(unit: &str) -> String {
@@ -278,7 +281,7 @@ fn register_item(calc: &mut SmartCalc, it: &ItemSpec) -> Result<bool, String> {
     let names = it.all_names();
     let parse: Vec<String> = names.iter().map(|n| format!("{{NUMBER:value}} {{TEXT:type:{}}}", n)).collect();
     let up = if it.offset == 0 { format!("{{value}} / {}", it.up.max(2)) } else { format!("{{value}} / {} + {}", it.up.max(2), it.offset) };
-    let down = format!("{{value}} * {}", it.down.max(2));
+    let down = if it.twice { format!("({{value}} + {{value}}) * {} / 2", it.down.max(2)) } else { format!("{{value}} * {}", it.down.max(2)) };
     guarded(|| calc.add_dynamic_type_item(fam.to_string(), it.index as usize, format, parse, up, down, names, None, None, None)).map_err(|p| format!("add_dynamic_type_item panicked at {}: {}", p.site, p.message))
 }
 
@@ -761,7 +764,7 @@ pub fn op_strategy() -> impl Strategy<Value = Op> {
         5 => (prop_oneof![6 => Just(0u8), 2 => Just(1u8), 1 => Just(2u8)], rule_strategy()).prop_map(|(l, r)| Op::AddRule(l, r)),
         3 => (prop_oneof![6 => Just(0u8), 2 => Just(1u8), 1 => Just(2u8)], prop_oneof![4 => 0u8..4, 1 => 4u8..12]).prop_map(|(l, n)| Op::DeleteRule(l, n)),
         2 => (0u8..3).prop_map(Op::AddType),
-        4 => (0u8..3, 0u8..=5, 0u8..10, 2u8..=12, 2u8..=12, prop_oneof![2 => Just(0u8), 1 => Just(1u8), 1 => Just(2u8)]).prop_map(|(family, index, unit, down, up, names)| Op::AddItem(ItemSpec { family, index, unit, down, up, names, offset: if (down + up) % 4 == 0 { 32 } else { 0 } })),
+        4 => (0u8..3, 0u8..=5, 0u8..10, 2u8..=12, 2u8..=12, prop_oneof![2 => Just(0u8), 1 => Just(1u8), 1 => Just(2u8)]).prop_map(|(family, index, unit, down, up, names)| Op::AddItem(ItemSpec { family, index, unit, down, up, names, offset: if (down + up) % 4 == 0 { 32 } else { 0 }, twice: down % 3 == 0 })),
         6 => (any::<u8>(), 0u32..40, 0u32..40).prop_map(|(i, n, k)| Op::Probe(i, n, k)),
         3 => (0u8..3, any::<u8>(), any::<u8>(), prop_oneof![1 => Just(0u32), 6 => 1u32..1000]).prop_map(|(f, i, j, a)| Op::ConvertProbe(f, i, j, a)),
         1 => (0u8..2).prop_map(Op::ResetDateRule),
@@ -817,10 +820,10 @@ fn family_block() -> impl Strategy<Value = Vec<Op>> {
             ops.push(Op::AddType(family));
         }
         for i in 0..m {
-            ops.push(Op::AddItem(ItemSpec { family, index: i as u8 + base, unit: (unit0 + i as u8) % 10, down: factors[i].0, up: factors[i].1, names: factors[i].2, offset: if (factors[i].0 + factors[i].1) % 4 == 0 { 32 } else { 0 } }));
+            ops.push(Op::AddItem(ItemSpec { family, index: i as u8 + base, unit: (unit0 + i as u8) % 10, down: factors[i].0, up: factors[i].1, names: factors[i].2, offset: if (factors[i].0 + factors[i].1) % 4 == 0 { 32 } else { 0 }, twice: factors[i].0 % 3 == 0 }));
             if let Some((di, du)) = dup {
                 if di as usize == i + 1 {
-                    ops.push(Op::AddItem(ItemSpec { family, index: i as u8 + base, unit: (unit0 + 5 + du) % 10, down: 9, up: 9, names: 0, offset: 0 }));
+                    ops.push(Op::AddItem(ItemSpec { family, index: i as u8 + base, unit: (unit0 + 5 + du) % 10, down: 9, up: 9, names: 0, offset: 0, twice: false }));
                 }
             }
         }
@@ -858,9 +861,9 @@ pub fn regressions() -> Vec<History> {
         // unknown language (F04)
         History { ops: vec![Op::AddRule(2, RuleSpec { name: 0, patterns: vec![p(0, 0)], behaviour: Behaviour::Number(5) }), Op::DeleteRule(2, 0)] },
         // a rule over quantities of a user family, registered before the family
-        History { ops: vec![Op::AddRule(0, RuleSpec { name: 0, patterns: vec![Pattern { kw: 0, layout: 0, n: Field::Unit(Some(0), 0), kw2: 1, kcase: 0 }], behaviour: Behaviour::Number(5) }), Op::AddType(0), Op::AddItem(ItemSpec { family: 0, index: 1, unit: 0, down: 2, up: 3, names: 1, offset: 0 }), Op::AddItem(ItemSpec { family: 0, index: 2, unit: 1, down: 2, up: 3, names: 2, offset: 0 }), Op::Probe(0, 6, 0), Op::ConvertProbe(0, 0, 1, 24), Op::ConvertProbe(0, 1, 0, 5), Op::ConvertProbe(0, 0, 1, 9), Op::ConvertProbe(0, 1, 0, 10)] },
+        History { ops: vec![Op::AddRule(0, RuleSpec { name: 0, patterns: vec![Pattern { kw: 0, layout: 0, n: Field::Unit(Some(0), 0), kw2: 1, kcase: 0 }], behaviour: Behaviour::Number(5) }), Op::AddType(0), Op::AddItem(ItemSpec { family: 0, index: 1, unit: 0, down: 2, up: 3, names: 1, offset: 0, twice: false }), Op::AddItem(ItemSpec { family: 0, index: 2, unit: 1, down: 2, up: 3, names: 2, offset: 0, twice: false }), Op::Probe(0, 6, 0), Op::ConvertProbe(0, 0, 1, 24), Op::ConvertProbe(0, 1, 0, 5), Op::ConvertProbe(0, 0, 1, 9), Op::ConvertProbe(0, 1, 0, 10)] },
         // a user family, duplicates rejected, conversion both ways
-        History { ops: vec![Op::AddType(0), Op::AddType(0), Op::AddItem(ItemSpec { family: 0, index: 1, unit: 0, down: 2, up: 3, names: 0, offset: 0 }), Op::AddItem(ItemSpec { family: 0, index: 2, unit: 1, down: 3, up: 4, names: 0, offset: 0 }), Op::AddItem(ItemSpec { family: 0, index: 2, unit: 2, down: 9, up: 9, names: 0, offset: 0 }), Op::AddItem(ItemSpec { family: 0, index: 3, unit: 3, down: 4, up: 5, names: 0, offset: 0 }), Op::AddItem(ItemSpec { family: 1, index: 1, unit: 4, down: 2, up: 2, names: 0, offset: 0 }), Op::ConvertProbe(0, 0, 2, 24), Op::ConvertProbe(0, 2, 0, 2), Op::ConvertProbe(0, 1, 0, 5)] },
+        History { ops: vec![Op::AddType(0), Op::AddType(0), Op::AddItem(ItemSpec { family: 0, index: 1, unit: 0, down: 2, up: 3, names: 0, offset: 0, twice: false }), Op::AddItem(ItemSpec { family: 0, index: 2, unit: 1, down: 3, up: 4, names: 0, offset: 0, twice: false }), Op::AddItem(ItemSpec { family: 0, index: 2, unit: 2, down: 9, up: 9, names: 0, offset: 0, twice: false }), Op::AddItem(ItemSpec { family: 0, index: 3, unit: 3, down: 4, up: 5, names: 0, offset: 0, twice: false }), Op::AddItem(ItemSpec { family: 1, index: 1, unit: 4, down: 2, up: 2, names: 0, offset: 0, twice: false }), Op::ConvertProbe(0, 0, 2, 24), Op::ConvertProbe(0, 2, 0, 2), Op::ConvertProbe(0, 1, 0, 5)] },
     ]
 }
 
@@ -1197,7 +1200,7 @@ pub fn self_check() {
 
 pub fn run(ctx: &Ctx) {
     self_check();
-    ctx.rule("call histories of 1-14 operations on one calculator: add_rule(en|tr|unknown language, 1-3 patterns of fresh keywords - or no keyword at all for rules that always decline, or an operator word of the rule's own language (times/minus, kere/eksi) - and typed fields {NUMBER:n} {PERCENT:n} {MONEY:n} {TEXT:n} {NUMBER:k} or a quantity of a user family {DYNAMIC_TYPE:n[:family]} (the rule registered before the family exists or after its items), behaviour computed from the NAMED fields: decline always / decline when n is odd / Number(c+2n+3k) / Money / Percent / Duration), delete_rule (existing, never registered - also the function names of built-in rules such as convert_money -, already deleted, unknown language; names from a pool of four so that duplicates occur), add_dynamic_type, add_dynamic_type_item (fresh / duplicate index / unknown family, integer link factors, a quarter of the upgrade codes with a constant offset (`{value} / 4 + 32`), amounts incl. 0; families whose lowest index is 0, 1 or 3; units with one name or two names in either order, lines written with either), set_date_rule with the patterns a language already has (changes nothing), probe evaluations of registered and deleted patterns, family conversions; oracle: return values against a model (add_rule false iff unknown language, delete_rule true iff a live rule of that name exists, removing the first; add_dynamic_type false iff the name exists; add_dynamic_type_item false iff the family is unknown or the index taken); effect: a line matched by exactly one live rule evaluates to what its behaviour computes, a declining rule or no rule leaves the line as on a plain calculator; conversions = product of the declared link factors; and after every deletion and at the end: the built-in sentences (arithmetic, money, percent, units, dates, durations incl. several parts and 'as', zones, bases) evaluate as on a plain calculator unless an operator-word rule is live, and every live pattern is probed for its effect once more at the end of the history; a panel of probe lines (every registered and deleted pattern, thirteen built-in sentences, every pair of family items, cross-family lines) evaluates identically on the long-lived calculator and on a fresh one on which only the surviving registrations were replayed, once in their order and once families first; non-trivial = a deletion followed by a probe of the deleted rule's pattern, two rules of equal name, or a rejected duplicate followed by a conversion");
+    ctx.rule("call histories of 1-14 operations on one calculator: add_rule(en|tr|unknown language, 1-3 patterns of fresh keywords - or no keyword at all for rules that always decline, or an operator word of the rule's own language (times/minus, kere/eksi) - and typed fields {NUMBER:n} {PERCENT:n} {MONEY:n} {TEXT:n} {NUMBER:k} or a quantity of a user family {DYNAMIC_TYPE:n[:family]} (the rule registered before the family exists or after its items), behaviour computed from the NAMED fields: decline always / decline when n is odd / Number(c+2n+3k) / Money / Percent / Duration), delete_rule (existing, never registered - also the function names of built-in rules such as convert_money -, already deleted, unknown language; names from a pool of four so that duplicates occur), add_dynamic_type, add_dynamic_type_item (fresh / duplicate index / unknown family, integer link factors, a quarter of the upgrade codes with a constant offset (`{value} / 4 + 32`), a third of the downgrade codes mentioning the placeholder twice (`({value} + {value}) * 6 / 2`), amounts incl. 0; families whose lowest index is 0, 1 or 3; units with one name or two names in either order, lines written with either), set_date_rule with the patterns a language already has (changes nothing), probe evaluations of registered and deleted patterns, family conversions; oracle: return values against a model (add_rule false iff unknown language, delete_rule true iff a live rule of that name exists, removing the first; add_dynamic_type false iff the name exists; add_dynamic_type_item false iff the family is unknown or the index taken); effect: a line matched by exactly one live rule evaluates to what its behaviour computes, a declining rule or no rule leaves the line as on a plain calculator; conversions = product of the declared link factors; and after every deletion and at the end: the built-in sentences (arithmetic, money, percent, units, dates, durations incl. several parts and 'as', zones, bases) evaluate as on a plain calculator unless an operator-word rule is live, and every live pattern is probed for its effect once more at the end of the history; a panel of probe lines (every registered and deleted pattern, thirteen built-in sentences, every pair of family items, cross-family lines) evaluates identically on the long-lived calculator and on a fresh one on which only the surviving registrations were replayed, once in their order and once families first; non-trivial = a deletion followed by a probe of the deleted rule's pattern, two rules of equal name, or a rejected duplicate followed by a conversion");
     ctx.assume("patterns consist of a fresh keyword plus typed fields (>= 2 tokens, the result cannot match again); unit items have fresh names, contiguous indices are needed for a conversion to be asserted");
     ctx.run_table(&Registry, "regressions", regressions(), false);
     let max = match ctx.tier {
